@@ -590,10 +590,12 @@ func (w *World) Observe() ([]RootObs, StoreObs) {
 			ro.N = int(h.Map.Count())
 			ro.Ti = tiString(h.Map.Type())
 			ro.Abs = w.absMap(h.Map)
-			if h.Dig != nil {
-				for i := 0; i+1 < len(ro.Abs); i += 2 {
+			for i := 0; i+1 < len(ro.Abs); i += 2 {
+				if h.Dig != nil {
 					v := h.Dig.Vec(ro.Abs[i].V)
 					ro.Kds = append(ro.Kds, []int{int(v[0]), int(v[1]), int(v[2]), int(v[3])})
+				} else {
+					ro.Kds = append(ro.Kds, []int{0, 0, 0, 0}) // built-in digester: digests unknown to the harness
 				}
 			}
 		}
